@@ -26,6 +26,22 @@ def norm(v):
     return v
 
 
+ANY = "?"
+
+
+def matches(observed, expected):
+    """equality, except that the wildcard ANY in an observation matches anything"""
+    if observed == expected:
+        return True
+    if isinstance(observed, str) and observed == ANY:
+        return True
+    if isinstance(observed, tuple) and isinstance(expected, tuple) and len(observed) == len(expected):
+        return all(matches(o, e) for o, e in zip(observed, expected))
+    if isinstance(observed, dict) and isinstance(expected, dict) and observed.keys() == expected.keys():
+        return all(matches(observed[k], expected[k]) for k in observed)
+    return False
+
+
 def base_name(name):
     return name.split(KF)[0]
 
@@ -202,7 +218,7 @@ class Walker:
                 matched, new = [], set()
                 for (s, lab2, v2) in cands:
                     terms, used = self.closure(v2)
-                    hit = [t for t in terms if norm(g.obs(t)) == observed]
+                    hit = [t for t in terms if matches(observed, norm(g.obs(t)))]
                     if hit:
                         matched.append((s, lab2, v2))
                         new.update(hit)
